@@ -256,6 +256,9 @@ func run(r *h.Run, idx int, fs []string) {
 			name := fmt.Sprintf("victim%d", victimN)
 			msgN++
 			will := &packet.Message{Topic: topics[rng.Intn(len(topics))], QOS: packet.QOS(rng.Intn(3)), Retain: rng.Intn(3) != 0, Payload: []byte(fmt.Sprintf("w%d-%d", idx, msgN))}
+			if will.Retain && rng.Intn(4) == 0 {
+				will.Payload = nil // a retained will with an empty payload clears the topic like any publish
+			}
 			if !join(name, true, will) {
 				return
 			}
@@ -267,7 +270,7 @@ func run(r *h.Run, idx int, fs []string) {
 				r.Inconclusive(fmt.Sprintf("history #%d: victim did not finish closing within the watchdog", idx))
 				return
 			}
-			x.steps = append(x.steps, fmt.Sprintf("%s:dies-with-will(%q q%d retain=%t)", name, will.Topic, will.QOS, will.Retain))
+			x.steps = append(x.steps, fmt.Sprintf("%s:dies-with-will(%q q%d retain=%t payload=%q)", name, will.Topic, will.QOS, will.Retain, will.Payload))
 			if !x.applyPublish(*will) {
 				return
 			}
